@@ -15,6 +15,11 @@ level"): the temporal values in the directory names are the calendar fields of `
 `t0 ≤ t1 ≤ datetime.max`, and — when the directory part holds a temporal placeholder —
 `t1 - t0 ≤ _sub_dir_time_resolution` (366 d / 31 d / 1 d / 1 h as the code defines it;
 `TM.period_le_res`: every real month / year is at most that long).
+
+`layoutSupported` (a directory level with temporal placeholders has a year at or above it)
+is not a hypothesis of any theorem: it delimits the templates on which the model is tied
+to the code (elsewhere `_to_datetime_args` raises out of `find`); the driver reports it and
+the harness generates only such templates.
 -/
 open FS TM
 
@@ -52,15 +57,13 @@ theorem C01_dir_kept_of_overlap (cfg : Config) (q : Query) (s e ds : Nat) (f : F
   obtain ⟨hs, he, _, _⟩ := period_ok hper
   exact dirs_kept hper hwp hw (by omega) (by omega)
 
-/-- **C01_find_spec**: for a well-placed population (and a template inside the quantifier,
-`layoutSupported`), `find(start, end)` with the default `sort=True` equals the *stable sort
+/-- **C01_find_spec**: for a well-placed population, `find(start, end)` with the default `sort=True` equals the *stable sort
 by `(t0, t1)` of the population filtered by the selection predicate* — whenever the period
 is valid (`period … = ok`, i.e. `start < end` and no `OverflowError`).  Consequently the
 answer is a permutation of the selected files (each as often as it occurs: exactly once for
 distinct files), ordered by `(t0, t1)`, it contains exactly the selected files, and
 `NoFilesError` is raised iff `no_files_error` and nothing is selected. -/
 theorem C01_find_spec (cfg : Config) (q : Query) (pop : List FileRec) (nf : Bool)
-    (_hsup : layoutSupported [] cfg.layout = true)
     (hwp : ∀ f ∈ pop, wellPlaced cfg f = true) (s e ds : Nat)
     (hper : period cfg q = .ok (s, e, ds)) :
     let chosen := pop.filter (sel cfg q.filters s e)
@@ -100,7 +103,9 @@ theorem C01_value_error (cfg : Config) (q : Query) (sort : Bool) (b : Bundle) (n
 /-- **C01_bundle_partition**: bundling only partitions the sorted sequence.  Bundles by
 count: their concatenation *is* the sorted answer, none is empty, none longer than `n`.
 Bundles by a fixed frequency `w`: their concatenation *is* the sorted answer, none is
-empty, each lies in one bin `t0 / w`. -/
+empty, each lies in one bin `t0 / w`, and there is exactly one bundle per occupied bin, the
+bins strictly ascending (files of an earlier bundle lie in a strictly smaller bin than
+files of a later one). -/
 theorem C01_bundle_partition (cfg : Config) (q : Query) (b : Bundle) (nf : Bool)
     (pop : List FileRec) (bs : List (List FileRec))
     (h : find cfg q true b nf pop = .ok (.bundles bs)) :
@@ -110,7 +115,8 @@ theorem C01_bundle_partition (cfg : Config) (q : Query) (b : Bundle) (nf : Bool)
       | .none => False
       | .count n => bs.flatten = sortFiles raw ∧ ∀ x ∈ bs, x.length ≤ n
       | .freq w => bs.flatten = sortFiles raw ∧
-          ∀ x ∈ bs, ∀ f ∈ x, ∀ g ∈ x, f.t0 / w = g.t0 / w := by
+          (∀ x ∈ bs, ∀ f ∈ x, ∀ g ∈ x, f.t0 / w = g.t0 / w) ∧
+          bs.Pairwise (fun x y => ∀ f ∈ x, ∀ g ∈ y, f.t0 / w < g.t0 / w) := by
   obtain ⟨raw, hr, hprep⟩ := find_ok h
   refine ⟨raw, hr, ?_⟩
   unfold prepare at hprep
@@ -132,12 +138,11 @@ theorem C01_bundle_partition (cfg : Config) (q : Query) (b : Bundle) (nf : Bool)
       subst hprep
       obtain ⟨hp, hb⟩ := groupByBin_props w (sortFiles raw)
       exact ⟨fun x hx => (hb x hx).1, groupByBin_sortFiles_flatten w raw,
-        fun x hx f hf g hg => (hb x hx).2 f hf g hg⟩
+        fun x hx f hf g hg => (hb x hx).2 f hf g hg, groupByBin_ascending w (sortFiles raw)⟩
 
 /-- **C01_contains_iff**: `t in fileset` is true iff some non-excluded file of the
 (well-placed) population covers `t` -/
 theorem C01_contains_iff (cfg : Config) (pop : List FileRec) (t : Nat) (r : Bool)
-    (_hsup : layoutSupported [] cfg.layout = true)
     (hwp : ∀ f ∈ pop, wellPlaced cfg f = true) (h : containsT cfg pop t = .ok r) :
     (r = true ↔ ∃ f ∈ pop, f.t0 ≤ t ∧ t ≤ f.t1 ∧ isExcluded cfg f = false) := by
   unfold containsT at h
@@ -172,7 +177,6 @@ theorem C01_contains_iff (cfg : Config) (pop : List FileRec) (t : Nat) (r : Bool
 /-- **C01_len_eq**: `len(fileset)` is the number of non-excluded files (that start before
 `datetime.max`, the default end being exclusive) — `0` for an empty population -/
 theorem C01_len_eq (cfg : Config) (pop : List FileRec)
-    (_hsup : layoutSupported [] cfg.layout = true)
     (hwp : ∀ f ∈ pop, wellPlaced cfg f = true) :
     len cfg pop = .ok (pop.filter fun f => decide (f.t0 < maxT) && !isExcluded cfg f).length := by
   have hper : period cfg {} = .ok (0, maxT - 1, 0) := by
@@ -210,7 +214,6 @@ theorem C01_layout_independent (cfg₁ cfg₂ : Config) (q : Query) (pop : List 
     (hx : cfg₂.exclNames = cfg₁.exclNames ∧ cfg₂.exclTimes = cfg₁.exclTimes)
     (hmove : ∀ f, (move f).id = f.id ∧ (move f).users = f.users ∧ (move f).t0 = f.t0 ∧
       (move f).t1 = f.t1)
-    (_hsup₁ : layoutSupported [] cfg₁.layout = true) (_hsup₂ : layoutSupported [] cfg₂.layout = true)
     (hwp₁ : ∀ f ∈ pop, wellPlaced cfg₁ f = true)
     (hwp₂ : ∀ f ∈ pop, wellPlaced cfg₂ (move f) = true)
     (raw₁ raw₂ : List FileRec)
